@@ -397,6 +397,10 @@ INDEXES = [
     ("mask", np.array([True, False, True, True, False, False, True])),
     ("mask-one", np.array([False, False, False, True, False, False, False])),
     ("mask-all", np.ones(7, dtype=bool)),
+    # a mask handed over as a plain list (of Python bools, of NumPy bools): NumPy treats it as a mask, so must the grid
+    ("mask-list", [True, False, True, True, False, False, True]),
+    ("mask-list-np-bools", list(np.array([False, True, False, False, True, True, False]))),
+    ("array-int32", np.array([4, 0, 2], dtype=np.int32)), ("array-uint", np.array([6, 1], dtype=np.uint16)),
 ]
 EMPTY_INDEXES = [
     ("slice-empty", slice(3, 3)), ("array-empty", np.zeros(0, dtype=int)),
@@ -415,7 +419,8 @@ def _select_case(gname, iname, seed, res):
     if isinstance(index, (int, np.integer)):
         ep, ew = p0[[int(index)]], w0[[int(index)]]
     else:
-        ep, ew = p0[index], w0[index]
+        ref_index = np.asarray(index) if isinstance(index, list) else index
+        ep, ew = p0[ref_index], w0[ref_index]
     try:
         with warnings.catch_warnings():
             warnings.simplefilter("ignore")
